@@ -137,6 +137,22 @@ def fam_rule_map_entries(q):
     return HDR + g + "table(sub) pass(1)\n" + "\n".join(rules) + "\nendpass; endtable;\n", [], None, (None if q <= 58 else "MUST-REJECT")
 
 
+def fam_gattr_id_in_rule_action(q, opts=()):
+    """q glyph attributes; a rule ACTION reads the last one (its id is above 255 from q = 252 on: the rule code then needs the
+    two-byte attribute operand, whatever Silf version the options leave)"""
+    # (attribute ids follow the names in alphabetical order: zero-padded names keep the last one on the highest id)
+    attrs = "; ".join("ga%03d = %d" % (i, 1000 + i) for i in range(q))
+    # (Bidi = false: without the mirroring attributes nothing else asks for a later version of the rule code)
+    gdl = (HDR + ("Bidi = false;\n" if q % 2 == 0 else "") + "table(glyph) cAll = glyphid(2..12) {%s}; cA = glyphid(3..6); cB = glyphid(7..10); endtable;\n"
+           "table(sub) cA > cB {user1 = ga%03d; user2 = @1.ga%03d}; endtable;\n" % (attrs, q - 1, q - 2))
+
+    def chk(s, g, face):
+        r = face.shape([0x62], user_attrs=2)
+        got = r[0]["user"] if r else None
+        return None if got == [1000 + q - 1, 1000 + q - 2] else "accepted, but the rule action reads glyph attributes %s where the program says %s (attribute number cut to one byte?)" % (got, [1000 + q - 1, 1000 + q - 2])
+    return gdl, list(opts), chk, "ENGINE"
+
+
 def fam_features(q):
     feats = "".join('f%d { id = %d; name.1033 = string("F%d"); settings { a%d { value = 0; name.1033 = string("x"); } } default = a%d; }\n' % (i, 100 + i, i, i, i) for i in range(q))
     return HDR + GT + "table(feature)\n" + feats + "endtable;\ntable(sub) cA > cB; endtable;\n", [], None, q
@@ -234,6 +250,9 @@ FAMILIES = [
     ("sill_table_bytes", fam_sill_bytes, [100, 133, 135, 140, 260], 120),
     ("feature_hidden_id", fam_feature_hidden_id, [65534, 65535, 65536, 0x73776170], 120),
     ("rule_map_entries", fam_rule_map_entries, [20, 58, 60, 130], 120),
+    ("glyph_attr_id_in_rule_action", fam_gattr_id_in_rule_action, [250, 252, 253, 264], 120),
+    ("glyph_attr_id_in_rule_action_v2_p", lambda q: fam_gattr_id_in_rule_action(q, ("-v2", "-p")), [250, 252, 253, 264], 120),
+    ("glyph_attr_id_in_rule_action_p", lambda q: fam_gattr_id_in_rule_action(q, ("-p",)), [250, 252, 253, 264], 120),
     ("features", fam_features, [62, 63, 64, 65, 200], 120),
     ("user_attr_index", fam_userattr, [15, 16, 17, 64], 120),
     ("glyph_attrs", fam_gattrs, [250, 252, 253, 256, 300], 120),
@@ -313,6 +332,11 @@ def run(tier, seed, replay=None):
                         s["_feat"] = None
                     f = gr2.Face(os.path.join(d, "out.ttf"))
                     okf = ("NOENGINE" in opts) or (f.ok() and f.shape([0x62, 0x62, 0x63]) is not None)
+                    if okf and true_value == "ENGINE":
+                        # the family checks a value through the engine: reader(silf, glat, face) -> problem or None
+                        pr = reader(s, g, f)
+                        if pr:
+                            problems.append(pr)
                     f.close()
                     if not okf:
                         problems.append("accepted, but libgraphite2 rejects the font")
@@ -322,7 +346,7 @@ def run(tier, seed, replay=None):
                         got, want = reader(s, g)
                         if got != want:
                             problems.append("accepted, but the context-item skip byte is %d while the guarded code is %d bytes long (wrapped)" % (got, want))
-                    elif reader is not None and true_value is not None:
+                    elif reader is not None and true_value is not None and true_value != "ENGINE":
                         got = reader(s, g)
                         if got != true_value:
                             problems.append("accepted, but the stored value is %s while the program needs %s (wrapped/truncated)" % (got, true_value))
